@@ -53,7 +53,9 @@ impl<'b, 'c> MessageBuilder<'b, 'c> {
             flags,
             counts: SectionCounts::default(),
         };
-        // TODO: Reset the name compressor.
+        // Reset the name compressor: entries from an earlier message refer
+        // to positions that hold different data (or nothing) now.
+        *compressor = NameCompressor::new();
         Self {
             message,
             offset: 0,
@@ -145,8 +147,9 @@ impl<'b> MessageBuilder<'b, '_> {
     /// This will remove all message contents and mark it as truncated.
     pub fn truncate(&mut self) {
         self.message.header.flags.set_tc(true);
+        self.message.header.counts = SectionCounts::default();
         self.offset = 0;
-        // TODO: Reset the name compressor.
+        *self.compressor = NameCompressor::new();
     }
 
     /// Append a message item.
@@ -183,14 +186,21 @@ impl<'b> MessageBuilder<'b, '_> {
             return Err(MessageBuildError::Misplaced);
         }
 
-        // Try to build the item.
-        self.offset = item.build_in_message(
+        // Try to build the item.  If that fails, the name compressor may
+        // have registered names at positions that were never (completely)
+        // written and will be overwritten by later items; restore it.
+        let saved_compressor = self.compressor.clone();
+        match item.build_in_message(
             &mut self.message.contents,
             self.offset,
             self.compressor,
-        )?;
-
-        // TODO: Reset the name compressor in case of failure.
+        ) {
+            Ok(offset) => self.offset = offset,
+            Err(err) => {
+                *self.compressor = saved_compressor;
+                return Err(err.into());
+            }
+        }
 
         // Update the section counts, now that we have succeeded.
         counts[section] += 1;
